@@ -55,6 +55,7 @@ def handlers : List (String × Handler) :=
     ("c17.lang", C17.handlerLang),
     ("c17.rep", C17.handlerRep),
     ("c01.answers", C01.handler),
+    ("c01.deep", C01.deepHandler),
     ("c03.answers", C01.handler),
     ("c04.answers", C01.handler),
     ("c06.lex", C06.lexHandler),
